@@ -108,6 +108,24 @@ pub fn eval(p: &Parameters, q: &Joints) -> Result<(Vec<(String, String)>, usize)
             ));
         }
     }
+    // the robot wearing a tool with an offset and a tilt, on a turned and shifted base: the pose this stack produces for q
+    // has as many answers, q among them
+    {
+        let tool = Iso::new(mmul(&roty(0.5), &rotz(-0.4)), [0.05, -0.02, 0.2]);
+        let base = Iso::new(mmul(&rotx(0.3), &rotz(0.9)), [0.3, -0.2, 0.15]);
+        let stack = rs_opw_kinematics::tool::Tool {
+            robot: std::sync::Arc::new(rs_opw_kinematics::tool::Base { robot: std::sync::Arc::new(OPWKinematics::new(*p)), base: to_na(&base) }),
+            tool: to_na(&tool),
+        };
+        let worn = base.mul(&pose).mul(&tool);
+        let got = stack.inverse(&to_na(&worn));
+        if got.len() != sols.len() || !contains(&got, q, MATCH_TOL) {
+            fails.push((
+                "C02/through-tool-and-base".to_string(),
+                format!("{} answers for the bare robot, {} behind base and tool (q present: {})", sols.len(), got.len(), contains(&got, q, MATCH_TOL)),
+            ));
+        }
+    }
     if sols.len() != 2 * n_arm {
         fails.push((
             format!("C02/branch-count/expected{}", 2 * n_arm),
@@ -228,7 +246,7 @@ pub fn run(ctx: &Ctx) -> Report {
     rep.rule = "robots R (dof 6) x theta lattice; points whose pose has any arm branch within the oracle margins \
                 (|sin t5|<=1e-3, elbow/reach boundary 1e-6 in cos, shoulder 1 mm) are skipped_precondition; oracle: \
                 q in inverse(FK_ref(q)), |answers| = 2 x reachable arm branches (independent arm IK), twins present, \
-                no duplicates, same size for the pose of every answer and for the same pose with the quaternion negated, answers bit-identical after a sibling robot solved the same pose on the same thread; threshold sweep: robots with a1 / a2 / b / c4 = +- each ladder magnitude x 4 postures; signature = number of answers".into();
+                no duplicates, same size for the pose of every answer and for the same pose with the quaternion negated, answers bit-identical after a sibling robot solved the same pose on the same thread, and the same count with q present behind a tilted, offset tool on a turned, shifted base; threshold sweep: robots with a1 / a2 / b / c4 = +- each ladder magnitude x 4 postures; signature = number of answers".into();
     rep.set("axes", json!({"robots": robots.len(), "theta_axis_sizes": ax.iter().map(|a| a.len()).collect::<Vec<_>>() }));
     rep.set("tolerances", json!({"match_mod_2pi": MATCH_TOL, "duplicate": DUP_TOL, "sin_margin": SIN_MARGIN}));
     rep.assumptions.push("lattice-relative: values outside the printed axes are not covered".into());
